@@ -85,6 +85,16 @@ Proof. induction 1; [constructor|]. econstructor; [apply Remove_there; eassumpti
 Lemma RemoveAll_app_r pre xs l l' : RemoveAll xs l l' -> RemoveAll xs (pre ++ l) (pre ++ l').
 Proof. induction pre; simpl; intros; [assumption|]. apply RemoveAll_cons_r. auto. Qed.
 
+Lemma remove_one_head x l : remove_one x (x :: l) = Some l.
+Proof. simpl. now rewrite Nat.eqb_refl. Qed.
+
+(* removing the element that sits second gives the same list whether or not it
+   equals the first one *)
+Lemma remove_one_second x e l : remove_one x (e :: x :: l) = Some (e :: l).
+Proof.
+  simpl. destruct (Nat.eqb_spec x e) as [->|NE]; [reflexivity|]. now rewrite Nat.eqb_refl.
+Qed.
+
 (** ** replay *)
 Lemma replay_from_app s tr1 tr2 :
   replay_from s (tr1 ++ tr2) =
@@ -112,6 +122,9 @@ Proof. exact (fun H => H). Qed.
 Lemma wp_bind A B (m : M A) (f : A -> M B) (Q : B -> st -> Prop) s :
   wp m (fun a s' => wp (f a) Q s') s -> wp (bind m f) Q s.
 Proof. unfold wp, bind. destruct (m s) as [a s']; simpl. exact (fun H => H). Qed.
+
+Lemma wp_eq A (m m' : M A) (Q : A -> st -> Prop) s : m s = m' s -> wp m' Q s -> wp m Q s.
+Proof. unfold wp. intros ->. exact (fun H => H). Qed.
 
 Lemma wp_conseq A (m : M A) (Q Q' : A -> st -> Prop) s :
   wp m Q s -> (forall a s', Q a s' -> Q' a s') -> wp m Q' s.
@@ -324,13 +337,13 @@ Ltac wp_step :=
       let s' := fresh "s" in let HS := fresh "HS" in intros s' HS
   | H : St ?s _ _ _ _ |- wp (unlock _) _ ?s =>
       eapply (wp_unlock _ _ _ _ _ _ _ _ H); clear H;
-      [ reflexivity | let s' := fresh "s" in let HS := fresh "HS" in intros s' HS ]
+      [ first [ reflexivity | apply remove_one_head | apply remove_one_second ] | let s' := fresh "s" in let HS := fresh "HS" in intros s' HS ]
   | H : St ?s _ _ _ _ |- wp (pin _) _ ?s =>
       eapply (wp_pin _ _ _ _ _ _ _ H); clear H;
       let s' := fresh "s" in let HS := fresh "HS" in intros s' HS
   | H : St ?s _ _ _ _ |- wp (unpin _) _ ?s =>
       eapply (wp_unpin _ _ _ _ _ _ _ _ H); clear H;
-      [ reflexivity | let s' := fresh "s" in let HS := fresh "HS" in intros s' HS ]
+      [ first [ reflexivity | apply remove_one_head | apply remove_one_second ] | let s' := fresh "s" in let HS := fresh "HS" in intros s' HS ]
   end; cbn beta iota.
 
 Ltac wp_go := repeat wp_step.
